@@ -118,6 +118,8 @@ def canon(v):
     if isinstance(v, Packet):
         fs = []
         for name, f, _, _ in v.get_fields():
+            if name.startswith('_described_'):
+                name = name[len('_described_'):]        # a described field: what the public attribute reads as (the real slot is scratch)
             try:
                 fs.append([name, canon(getattr(v, name))])
             except AttributeError:
@@ -501,7 +503,7 @@ def main():
     payload = json.load(open(sys.argv[1]))
     d = os.path.dirname(os.path.abspath(sys.argv[1]))
     sys.path.insert(0, d)
-    json.dump(run_group(payload, d), open(sys.argv[2], 'w'))
+    json.dump(run_group(payload, d), open(sys.argv[2], 'w'), default=lambda o: {'object': type(o).__name__})
 
 
 if __name__ == '__main__':
